@@ -6,8 +6,9 @@ VERIF = os.path.dirname(os.path.dirname(os.path.abspath(__file__)))
 REPO = os.environ.get('YLD_REPO', '/repo')
 LEAN_DIR = os.path.join(VERIF, 'lean')
 DRIVER = os.path.join(LEAN_DIR, '.lake', 'build', 'bin', 'ylddriver')
-EVIDENCE_DIR = os.path.join(VERIF, 'evidence')
-REPLAY_DIR = os.path.join(VERIF, 'replays')
+# (the two overrides are for tools/mutant.sh: runs against a mutated copy must not touch the committed evidence)
+EVIDENCE_DIR = os.environ.get('VERIF_EVIDENCE_DIR') or os.path.join(VERIF, 'evidence')
+REPLAY_DIR = os.environ.get('VERIF_REPLAY_DIR') or os.path.join(VERIF, 'replays')
 PY = '/venv/bin/python'
 
 os.environ['YLDPROLOG_VERIF'] = '1'
